@@ -1,6 +1,8 @@
 (* C04 - Key rotation: refreshed keys follow the master key, stale keys fall behind. *)
 From Coq Require Import List NArith Bool Arith Lia.
 From CC Require Import Policy Structure Keys KeysMachine RefreshProofs PinnedRefuted.
+From CC Require Import DisabledProofs KInv1 KInv2 KInv3 KInv4 KInv4b KInv5 KInv6 KInv7 KInv8 KInv9 KInv10.
+From CC Require KeysTheorems.
 Import ListNotations.
 
 (* The repaired refresh_coordinate_keys, seen on the append-only log L of a right (newest first):
@@ -23,3 +25,137 @@ Proof.
   split; vm_compute; [discriminate|reflexivity].
 Qed.
 Print Assumptions C04_pinned_revisions_refuted.
+
+(* ---- over all reachable states of the key-management state machine (KInv*.v, gathered in KeysTheorems.v) ---- *)
+Theorem C04_I3_usk_sub_msk_history :
+  forall s : state,
+       reach s ->
+       exists L : rightk -> list secret,
+         (forall r : rightk, NoDup (map tok (L r))) /\
+         (forall (r r' : rightk) (sk sk' : secret),
+          In sk (L r) -> In sk' (L r') -> tok sk = tok sk' -> r = r' /\ sk = sk') /\
+         (forall (r : rightk) (sk : secret), In sk (L r) -> (tok sk < st_ctr s)%N) /\
+         (forall (r : rightk) (ch : list (bool * secret)),
+          In (r, ch) (m_secrets (st_msk s)) ->
+          exists k : nat, 1 <= k <= length (L r) /\ map snd ch = firstn k (L r)) /\
+         (forall (u : usk) (r : rightk) (ch : list secret),
+          In u (st_usks s) ->
+          In (r, ch) (u_chains u) ->
+          exists i j : nat, i < j <= length (L r) /\ ch = firstn (j - i) (skipn i (L r))) /\
+         (forall (pk : mpk) (r : rightk) (sk : secret),
+          In pk (st_mpks s) -> In (r, sk) (p_keys pk) -> In sk (L r)) /\
+         (forall (x : xenc) (t : N),
+          In x (st_encs s) ->
+          In t (x_entries x) -> exists (r : rightk) (sk : secret), In sk (L r) /\ tok sk = t).
+Proof. exact (@KeysTheorems.I3_usk_sub_msk_history). Qed.
+Print Assumptions C04_I3_usk_sub_msk_history.
+
+Theorem C04_rekey_pushes_front_reach :
+  forall (s : state) (p : str),
+       reach s ->
+       snd (step fixed s (ORekey p)) = ObOk ->
+       let s' := fst (step fixed s (ORekey p)) in
+       let m := st_msk s in
+       let m' := st_msk s' in
+       exists rs : list rightk,
+         usk_rights fixed (m_st m) p = ROk rs /\
+         NoDup rs /\
+         (forall (i : nat) (r : rightk),
+          nth_error rs i = Some r ->
+          exists (fl : bool) (sk : secret) (older : list (bool * secret)),
+            rlookup r (m_secrets m) = Some ((fl, sk) :: older) /\
+            rlookup r (m_secrets m') =
+            Some ((fl, {| tok := st_ctr s + N.of_nat i; s_hyb := s_hyb sk |}) :: (fl, sk) :: older)) /\
+         (forall r : rightk, ~ In r rs -> rlookup r (m_secrets m') = rlookup r (m_secrets m)) /\
+         map fst (m_secrets m') = map fst (m_secrets m) /\
+         st_ctr s' = (st_ctr s + N.of_nat (length rs))%N /\
+         m_users m' = m_users m /\
+         m_st m' = m_st m /\
+         st_usks s' = st_usks s /\
+         st_encs s' = st_encs s /\
+         st_mpks s' = st_mpks s ++ [mk_mpk m'] /\
+         (forall (r : rightk) (sk : secret),
+          rlookup r (p_keys (mk_mpk m')) = Some sk <->
+          (exists older : list (bool * secret), rlookup r (m_secrets m') = Some ((true, sk) :: older))).
+Proof. exact (@KeysTheorems.C04_rekey_pushes_front). Qed.
+Print Assumptions C04_rekey_pushes_front_reach.
+
+Theorem C04_decaps_iff_shared_token_reach :
+  forall (u : usk) (x : xenc),
+       (decaps fixed u x = Some (x_seed x) <->
+        (exists sk : secret, In sk (concat (map snd (u_chains u))) /\ opens x sk = true)) /\
+       (decaps fixed u x = None <->
+        (forall sk : secret, In sk (concat (map snd (u_chains u))) -> opens x sk = false)).
+Proof. exact (@KeysTheorems.C04_decaps_iff_shared_token). Qed.
+Print Assumptions C04_decaps_iff_shared_token_reach.
+
+Theorem C04_old_key_cannot_open_reach :
+  forall (u : usk) (x : xenc) (c : N),
+       (forall sk : secret, In sk (concat (map snd (u_chains u))) -> (tok sk < c)%N) ->
+       (forall t : N, In t (x_entries x) -> (c <= t)%N) -> decaps fixed u x = None.
+Proof. exact (@KeysTheorems.C04_old_key_cannot_open). Qed.
+Print Assumptions C04_old_key_cannot_open_reach.
+
+Theorem C04_stale_cannot_open_reach :
+  forall (ops1 : list op) (p : str) (ops2 : list op) (k : nat) (u : usk) (j : nat) 
+         (pol : str) (rs : list rightk) (x : xenc),
+       let s1 := run_state fixed init ops1 in
+       let s1' := fst (step fixed s1 (ORekey p)) in
+       let s2 := run_state fixed s1' ops2 in
+       snd (step fixed s1 (ORekey p)) = ObOk ->
+       usk_rights fixed (m_st (st_msk s1)) p = ROk rs ->
+       ~ In OSetup ops2 ->
+       nth_error (st_usks s1) k = Some u ->
+       length (st_mpks s1) <= j ->
+       (forall (pk : mpk) (rsx : list rightk),
+        nth_error (st_mpks s2) j = Some pk -> enc_rights fixed (p_st pk) pol = ROk rsx -> incl rsx rs) ->
+       st_encs (fst (step fixed s2 (OEncaps j pol))) = st_encs s2 ++ [x] -> decaps fixed u x = None.
+Proof. exact (@KeysTheorems.C04_stale_cannot_open). Qed.
+Print Assumptions C04_stale_cannot_open_reach.
+
+Theorem C04_refresh_opens_current_reach :
+  forall (s : state) (k : nat) (keep : bool) (u : usk),
+       reach s ->
+       nth_error (st_usks s) k = Some u ->
+       snd (step fixed s (ORefresh k keep)) = ObOk ->
+       exists u' : usk,
+         nth_error (st_usks (fst (step fixed s (ORefresh k keep)))) k = Some u' /\
+         (forall (r : rightk) (ch : list secret),
+          In (r, ch) (u_chains u') ->
+          exists (fl : bool) (sk : secret) (older : list (bool * secret)) (rest : list secret),
+            rlookup r (m_secrets (st_msk s)) = Some ((fl, sk) :: older) /\ ch = sk :: rest) /\
+         (forall (rs : list rightk) (c : N) (x : xenc) (c' : N) (r : rightk),
+          encaps_rights (mk_mpk (st_msk s)) rs c = (ROk x, c') ->
+          In r rs -> In r (map fst (u_chains u')) -> decaps fixed u' x = Some (x_seed x)).
+Proof. exact (@KeysTheorems.C04_refresh_opens_current). Qed.
+Print Assumptions C04_refresh_opens_current_reach.
+
+Theorem C04_keep_monotone_reach :
+  forall (s : state) (k : nat) (u : usk),
+       reach s ->
+       nth_error (st_usks s) k = Some u ->
+       snd (step fixed s (ORefresh k true)) = ObOk ->
+       exists u' : usk,
+         nth_error (st_usks (fst (step fixed s (ORefresh k true)))) k = Some u' /\
+         (forall (r : rightk) (uch : list secret) (sk : secret) (mch : list (bool * secret)),
+          In (r, uch) (u_chains u) ->
+          In sk uch ->
+          rlookup r (m_secrets (st_msk s)) = Some mch ->
+          In sk (map snd mch) -> exists ch : list secret, In (r, ch) (u_chains u') /\ In sk ch).
+Proof. exact (@KeysTheorems.C04_keep_monotone). Qed.
+Print Assumptions C04_keep_monotone_reach.
+
+Theorem C04_nokeep_only_newest_reach :
+  forall (s : state) (k : nat) (u : usk),
+       nth_error (st_usks s) k = Some u ->
+       snd (step fixed s (ORefresh k false)) = ObOk ->
+       exists u' : usk,
+         nth_error (st_usks (fst (step fixed s (ORefresh k false)))) k = Some u' /\
+         (forall (r : rightk) (ch : list secret),
+          In (r, ch) (u_chains u') ->
+          exists (fl : bool) (sk : secret) (older : list (bool * secret)),
+            rlookup r (m_secrets (st_msk s)) = Some ((fl, sk) :: older) /\ ch = [sk]).
+Proof. exact (@KeysTheorems.C04_nokeep_only_newest). Qed.
+Print Assumptions C04_nokeep_only_newest_reach.
+
+
